@@ -1,12 +1,19 @@
 CONFIG = {
     "props": "props/C36.v",
-    "runner": {"module": "Verif.model.OneTimeSigSpec", "ident": "check"},
+    "runner": {"module": "Verif.model.PartPersistSpec", "ident": "check"},
     "harness": [{
         "name": "crypto", "pkg": "./crypto/", "run": "^TestVerifC36$",
         "files": ["crypto/zz_verif_c36_test.go"],
         "util": [("crypto", "crypto")],
         "env": {"quick": {"VERIF_C36_DEPTH": 3, "VERIF_C36_RAND": 400},
                 "thorough": {"VERIF_C36_DEPTH": 4, "VERIF_C36_RAND": 4000, "VERIF_C36_BIG": 1}},
+        "timeout": {"quick": 600, "thorough": 3000},
+    }, {
+        "name": "persist", "pkg": "./data/account/", "run": "^TestVerifC36P$",
+        "files": ["data/account/zz_verif_c36p_test.go"],
+        "util": [("data/account", "account")],
+        "env": {"quick": {"VERIF_C36P_DEPTH": 2, "VERIF_C36P_RAND": 60},
+                "thorough": {"VERIF_C36P_DEPTH": 3, "VERIF_C36P_RAND": 600, "VERIF_C36P_BIG": 1}},
         "timeout": {"quick": 600, "thorough": 3000},
     }],
     "rule": "real ed25519 keys; a case = one operation sequence (DeleteBeforeFineGrained(cur,K) | persist+reload) on a fresh "
@@ -16,7 +23,18 @@ CONFIG = {
             "identifier of the universe as deletion point + reload, for 7 (thorough 10) (start,n,K) incl. n=0 and K=0; uint64 "
             "boundaries (start=0, top of the batch range, deletion points with Batch=2^64-1); random longer sequences with a "
             "different K per call and huge offsets. Non-trivial = some operation changed the observation (a key was deleted); "
-            "distinct = distinct case lines.",
+            "distinct = distinct case lines. "
+            "persist harness (data/account): a case = one operation sequence on a fresh FillDBWithParticipationKeys(fv,lv,K) "
+            "PersistedParticipation over a REAL participation database (in-memory SQLite; one configuration on a temp file that is closed "
+            "and reopened): DeleteOldKeys(r) waited for on the returned channel (optionally with the UPDATE made to fail by hiding the "
+            "table) | restart = RestoreParticipation. After Fill and after EVERY operation EVERY round of fv-1..lv+2 is probed "
+            "(Sign at OneTimeIDForRound then the real Verify, + neighbouring identifiers / other message) twice: on part.Voting and on "
+            "the Voting of a fresh RestoreParticipation (what a restart would load). spec_ok: no round below a deletion round whose "
+            "channel reported success verifies from either; every round of [fv,lv] at/above all requested deletion rounds verifies from "
+            "both; nothing reappears; restart => memory = previous database, reported success => database = memory. Exhaustive: ALL "
+            "sequences of length D (quick 2, thorough 3; D+1 for the smallest) over every probed round as deletion round (+ failing "
+            "writes) + restart for 8 (thorough 11) configurations incl. K=1, a single batch, KeyDilution=0 (proto default), fv=0; "
+            "random longer round-by-round histories. Plus OverlapsInterval over all small intervals.",
     "exhaustive": {"quick": True, "thorough": True},
     "explanation": "theorems: every start/n with start+n <= 2^64, every list of operations, every deletion point and every key dilution "
                    "(also varying per call); exhaustive flag refers to the enumerated sub-space only (all op sequences up to the stated depth "
@@ -28,6 +46,12 @@ CONFIG = {
         "a nil Go slice has length 0; uint64 arithmetic wraps modulo 2^64 (language specification)",
         "forward security is proved for deletion points with Batch < 2^64-1; for Batch = 2^64-1 it is refuted (finding c36_batch_wrap)",
     ],
-    "trusted_base": ["modelled: crypto/onetimesig.go Generate/DeleteBeforeFineGrained/Sign/Verify/Snapshot+msgpack reload over symbolic key "
+    "trusted_base": ["modelled: data/account/participation.go DeleteOldKeys / FillDBWithParticipationKeys (key part) / OverlapsInterval, "
+                     "account.go RestoreParticipation (voting blob + keyDilution), basics.OneTimeIDForRound (coq/model/PartPersist.v); the "
+                     "database is one blob cell whose UPDATE either happens or fails (dbok); DeleteOldKeys calls are sequential (each "
+                     "channel is awaited before the next call, as AccountManager.DeleteOldKeys does): two outstanding calls could write "
+                     "their snapshots in either order -- not modelled; VRF / state-proof secrets, PersistNewParent (touches only the "
+                     "parent column) are not modelled",
+                     "modelled: crypto/onetimesig.go Generate/DeleteBeforeFineGrained/Sign/Verify/Snapshot+msgpack reload over symbolic key "
                      "material (coq/model/OneTimeSig.v); locking (mu) and the RNG are not modelled"],
 }
